@@ -293,6 +293,9 @@ func randomLayout(g *gen.G) *layout {
 				parentOf[n] = g.Pick(all)
 			case 4:
 				parentOf[n] = []any{g.Pick(all), g.Pick(all)}
+				if g.P(0.3) {
+					parentOf[n] = []any{g.Pick(all), "missing.layer"}
+				}
 			case 5:
 				parentOf[n] = g.Pick(segs) + ".*"
 			case 6:
